@@ -3,7 +3,8 @@ from .protoprop import spec
 
 SPEC = spec(
     'C10',
-    ['C10_close_transport_is_the_model', 'C10_connection_made_is_the_model', 'C10_connection_lost_is_the_model', 'C10_eof_received_is_the_model',
+    ['C10_ensure_lock_is_the_model', 'C10_tcp_close_is_the_model',
+     'C10_close_transport_is_the_model', 'C10_connection_made_is_the_model', 'C10_connection_lost_is_the_model', 'C10_eof_received_is_the_model',
      'C10_at_most_one_open_transport', 'C10_open_transport_is_referenced', 'C10_nothing_open_after_request', 'C10_nothing_open_after_close',
      'C10_close_transport_forgets', 'C10_nothing_referenced_after_request', 'C10_transport_opens', 'C10_everything_closed_at_the_end'],
     text='Refinement theorems re-proved on every run: the model functions used below ARE the current source of the corresponding synchronous methods of protocol.py (translated by tools/cb2v.py into the statement language of Model/Callbacks.v, fail-closed): _close_transport, connection_made, connection_lost, eof_received. '
